@@ -88,7 +88,7 @@ def build_props(prop_id, groups=None, timeout=900):
             return out
     # parse theorem names and their Print Assumptions output from the property file's compile log
     src = open(os.path.join(COQ, f'Props/{prop_id}.v')).read()
-    thms = re.findall(r'^(?:Theorem|Lemma)\s+(\w+)', src, re.M)
+    thms = re.findall(r'^(?:Theorem|Lemma|Definition)\s+(C\d\d\w+)', src, re.M)
     out['theorems'] = thms
     prints = re.findall(r'^Print Assumptions\s+(\w+)\.', src, re.M)
     # the log interleaves; split on the two possible heads
